@@ -286,3 +286,21 @@ def decoy_texts(family, params):
         if family != "flory_schulz" and 0 < a < 1:
             out.append(f"flory_schulz({a})")
     return out
+
+
+KNOWN_NAMES = ("gauss", "uniform", "schulz_zimm", "log_normal", "poisson", "flory_schulz")
+
+
+def unknown_names(fam, params, rng=None):
+    """distribution texts whose NAME is not one of the six documented ones although it contains one of them (as prefix, suffix, infix,
+    in another case, doubled, combined with a second known name), each with a well-formed parameter list of the family's arity"""
+    import random
+
+    rng = rng or random.Random(0)
+    ps = "(" + ", ".join(repr(float(p)) for p in params) + ")"
+    out = [f"{fam}ian{ps}", f"{fam}_int{ps}", f"{fam}2{ps}", f"{fam}_b{ps}", f"{fam}_mixture{ps}", f"inverse_{fam}{ps}", f"non_{fam}{ps}", f"x{fam}{ps}", f"zero_inflated_{fam}{ps}",
+           f"{fam.upper()}{ps}", f"{fam.capitalize()}{ps}", f"{fam}{fam}{ps}", f"{fam[:-1]}{ps}", f"{fam[1:]}{ps}", f"{fam.replace('_', '')}{ps}" if "_" in fam else f"{fam}_{ps}",
+           f"{fam}.{ps}", f"{fam}-{fam}{ps}"]
+    other = rng.choice([k for k in KNOWN_NAMES if k != fam and k not in fam and fam not in k])
+    out += [f"{other}_{fam}{ps}", f"{fam}_{other}{ps}", f"{other}{fam}{ps}"]
+    return [t for t in out if t.split("(")[0] not in KNOWN_NAMES]
